@@ -1,10 +1,12 @@
 (* Model of split_file_into_chunks_by_size (bigtools/src/utils/file.rs) on a file given as its
    bytes, and of the line stream a StreamingLineReader<BufReader<_>> delivers.  No proofs here.
 
-   Not modelled: read_line's UTF-8 validation (inputs are ASCII; a seek into the middle of a
-   multi-byte character makes the real read_line fail with InvalidData), u64 overflow of
-   chunk_start + 2*chunk_size (file sizes are far below 2^62), and the allocation
-   Vec::with_capacity(chunks) for absurd chunk counts. *)
+   The chunker works on bytes (since 7d8a88e the real one does too: read_until, not read_line, after
+   the seek, which may land inside a multi-byte character).  The line streams are read with
+   read_line, which validates UTF-8: inputs are valid UTF-8 and every piece starts at a line start,
+   so the validation never fails.  Not modelled: str::trim_end for non-ASCII white space (U+0085,
+   U+00A0, ...), u64 overflow of chunk_start + 2*chunk_size (file sizes are far below 2^62), and
+   the allocation Vec::with_capacity(chunks) for absurd chunk counts. *)
 From BT Require Import Base.Util.
 Local Open Scope N_scope.
 
